@@ -675,4 +675,23 @@ example : SysC.RunP (SysC.FairHyp ⟨SysC.wedgeA.snd_nxt, SysC.wedgeA.conv, 0, 0
     (SysC.netRun (Sys.init SysC.wedgeA SysC.wedgeB 0 1000) c03W1Pre) c03W1Evs :=
   SysC.runFairChk_sound ⟨SysC.wedgeA.snd_nxt, SysC.wedgeA.conv, 0, 0, 0⟩ 300 10 _ _ (by decide)
 
+/-! 4. ALL hypotheses of `C03_resume_partial` at once, the length included — by evaluation only (`#guard`,
+not a kernel proof: the run has 170 000 events): flush interval 5000 ms at both ends, one segment written,
+flushed and lost; 34 rounds of "5000 ticks, flushes, deliveries, read" take the clock to t = 161 500,
+beyond `1 + 1 · (fairStage 300 5000 5000 0 + 2) = 155 306` ms after the start; `FairHyp` holds in every
+state, and the segment is delivered and acknowledged. -/
+
+def c03LongA : Kcp := Kcp.noDelay (Kcp.new 7) 1 5000 2 1
+def c03LongPre : List SysC.NetEv := [.fair (.send [1]), .fair .flushA, .shuffle [] []]
+def c03LongRound : List Sys.Ev := List.replicate 5000 .tick ++ [.flushA, .dlvB, .read, .flushB, .dlvA]
+def c03LongEvs : List Sys.Ev := (List.replicate 34 c03LongRound).flatten
+
+#guard decide (SysC.ConsInit c03LongA c03LongA ∧ c03LongA.probe_wait = 0 ∧ c03LongA.interval.toNat = 5000 ∧
+    SysC.NetNoWrap c03LongA.snd_nxt (Sys.init c03LongA c03LongA 0 1000) c03LongPre ∧ (∀ ev ∈ c03LongEvs, SysC.isSend ev = false))
+#guard SysC.runFairChk c03LongA.snd_nxt 300 5000 (SysC.netRun (Sys.init c03LongA c03LongA 0 1000) c03LongPre) c03LongEvs
+#guard decide ((SysC.netRun (Sys.init c03LongA c03LongA 0 1000) c03LongPre).now + 1 +
+    (SysC.netRun (Sys.init c03LongA c03LongA 0 1000) c03LongPre).A.waitSnd * (SysC.fairStage 300 5000 5000 0 + 2) ≤
+    (Sys.run (SysC.netRun (Sys.init c03LongA c03LongA 0 1000) c03LongPre) c03LongEvs).now)
+#guard (Sys.run (SysC.netRun (Sys.init c03LongA c03LongA 0 1000) c03LongPre) c03LongEvs).A.waitSnd == 0
+
 end KcpVerif.Props
